@@ -153,6 +153,20 @@ def make_config(rng, **ov):
     if rng.random() < 0.5:
         progs.append(("P_fix", ["FIX", "OGI_FU2"]))
     cfg["programs"] = [{"name": n, "methods": m} for n, m in progs]
+    if ov.get("ogi_clones"):
+        # opt-in (no random draw): a program list for pool runs with MORE programs than 4 x processes, so
+        # that Pool.starmap ships several program tuples in one pickled chunk (they then share one unpickled
+        # infrastructure object unless simulate() copies it).  `ogi_clones = k` gives k identical
+        # component-level OGI programs P_OGI, P_OGIb, ... plus P_air (and P_fix if it was drawn);
+        # `baseline_position` in {"first", "middle", "last"} or an index places the no-LDAR program P_none.
+        k = int(ov["ogi_clones"])
+        clones = [{"name": "P_OGI" + ("" if i == 0 else "bcdefghij"[i - 1]), "methods": ["OGI"]} for i in range(k)]
+        others = [p for p in cfg["programs"] if p["name"] not in ("P_none", "P_OGI")]
+        rest = clones[:1] + others[:1] + clones[1:] + others[1:]
+        pos = ov.get("baseline_position", "first")
+        idx = {"first": 0, "middle": 1, "last": len(rest)}.get(pos, pos)
+        rest.insert(min(int(idx), len(rest)), {"name": "P_none", "methods": []})
+        cfg["programs"] = rest
     cfg["baseline"] = "P_none"
     cfg["duration_method"] = rng.choice(["measurement-based", "component-based"])
     cfg["duration_factor"] = rng.choice([1.0, 0.5, 0.75])
@@ -246,12 +260,24 @@ def materialize(cfg, root):
                 row.append(vals.get(str(s["id"]), vals.get(s["id"], "")))
             w.writerow(row)
     infra = {"sites_file": "sites.csv"}
+    # optional (default absent: behaviour unchanged): extra columns of the site TYPE file, col -> {site_type: value}
+    # (e.g. "<method>_site_deployment"); in a non-granular configuration a site type file holding only these
+    # columns is written
+    extra_type_cols = cfg.get("site_type_extra_cols") or {}
+    if extra_type_cols and not cfg["granular"]:
+        types = sorted({s["type"] for s in cfg["sites"]})
+        with open(os.path.join(in_dir, "site_type.csv"), "w", newline="") as fh:
+            w = csv.writer(fh)
+            w.writerow(["site_type"] + list(extra_type_cols))
+            for t in types:
+                w.writerow([t] + [extra_type_cols[c].get(t, "") for c in extra_type_cols])
+        infra["site_type_file"] = "site_type.csv"
     if cfg["granular"]:
         with open(os.path.join(in_dir, "site_type.csv"), "w", newline="") as fh:
             w = csv.writer(fh)
-            w.writerow(["site_type", "equipment"])
+            w.writerow(["site_type", "equipment"] + list(extra_type_cols))
             for t, eqs in cfg["site_types"].items():
-                w.writerow([t, ";".join(eqs) + ";"])
+                w.writerow([t, ";".join(eqs) + ";"] + [extra_type_cols[c].get(t, "") for c in extra_type_cols])
         comps = sorted({c for e in cfg["equipment"].values() for c in e})
         with open(os.path.join(in_dir, "equipment.csv"), "w", newline="") as fh:
             w = csv.writer(fh)
